@@ -121,6 +121,11 @@ class FusedIO(BlockwiseIO):
 
     def _divisions(self):
         divisions = self.operand("_expr")._divisions()
+        partitions = list(self.operand("_expr")._partitions)
+        if any(b <= a for a, b in zip(partitions, partitions[1:])):
+            # The lower bounds of a reordered or repeated selection do not
+            # bound the partitions
+            return (None,) * (len(self._fusion_buckets) + 1)
         new_divisions = [divisions[b[0]] for b in self._fusion_buckets]
         if new_divisions[0] is None:
             new_divisions.append(None)
